@@ -233,7 +233,7 @@ struct Client : simk::Actor {
 	void step() override {
 		if(!connected){ c = simk::client_connect(addr,cap_to_server,cap_to_client); if(!c){ refused = true; finish_all(true); return; } connected = true; start_exchange(); return; }
 		if(deadline >= 0 && simk::now_us() >= deadline){ if(!E().well_formed) E().hang = true; else E().timed_out = true; finish_all(true); return; }
-		if(!E().well_formed && E().wire.empty() && E().t_sent < 0){ Exchange &e = E(); e.t_sent = simk::now_us(); if(e.after == "close"){ finish_all(true); return; } if(e.after == "halfclose") c->shutdown_wr(); deadline = simk::now_us() + bad_wait_us; return; }
+		if(!E().well_formed && E().wire.empty() && E().t_sent < 0){ Exchange &e = E(); e.t_sent = simk::now_us(); if(e.after == "reset"){ c->do_reset(); finish_all(true); return; } if(e.after == "close"){ finish_all(true); return; } if(e.after == "halfclose") c->shutdown_wr(); deadline = simk::now_us() + bad_wait_us; return; }
 		bool ws = want_send(), wr = want_recv();
 		if(ws && (!wr || rng.below(2))){
 			Exchange &e = E(); size_t room = c->send_room(); size_t want = segi < e.seg.size() && e.seg[segi] > 0 ? (size_t)e.seg[segi] : e.wire.size(); segi++;
@@ -243,6 +243,7 @@ struct Client : simk::Actor {
 			if(segi >= 1 && segi-1 < e.seg_delay_ms.size() && e.seg_delay_ms[segi-1] > 0 && sent < e.wire.size()){ int64_t d = e.seg_delay_ms[segi-1]*1000LL; hold_until = simk::now_us() + d; if(deadline >= 0) deadline += d; n_pauses++; }
 			if(sent == e.wire.size() && e.t_sent < 0){ e.t_sent = simk::now_us();
 				if(!e.well_formed){
+					if(e.after == "reset"){ c->do_reset(); finish_all(true); return; }   // RST right behind the last byte sent
 					if(e.after == "close"){ finish_all(true); return; }
 					if(e.after == "halfclose") c->shutdown_wr();
 					deadline = simk::now_us() + bad_wait_us; }
@@ -407,13 +408,14 @@ struct E1 : Engine {
 		if(x < 45) op = generic[r.below(13)];
 		else if(proto == 0) op = http_m[r.below(14)]; else if(proto == 1) op = scgi_m[r.below(12)]; else op = fcgi_m[r.below(17)];
 		m["op"] = op; m["pos"] = (long long)r.below(1000000); m["n"] = (int)(1 + r.below(8)); m["byte"] = (int)r.below(256); m["len"] = (int)r.below(3000);
-		static const char *afters[] = {"close","halfclose","halfclose","wait"}; m["after"] = afters[r.below(4)];
+		static const char *afters[] = {"close","halfclose","halfclose","wait","reset"}; m["after"] = afters[r.below(5)];
+		if(r.below(12) == 0){ m["op"] = "complete_then_reset"; m["after"] = "reset"; }   // a complete, valid request whose peer resets the connection right behind its last byte
 		return m;
 	}
 	static std::string find_replace_header(std::string w,const std::string &name,const std::string &newline){ size_t p = w.find("\r\n" + name + ":"); if(p == std::string::npos){ size_t e = w.find("\r\n\r\n"); if(e == std::string::npos) return w; return w.substr(0,e+2) + newline + w.substr(e+2); } size_t e = w.find("\r\n",p+2); return w.substr(0,p+2) + newline + w.substr(e+2); }
 	static void apply_mutation(Exchange &e,const J &m,int proto){
 		std::string op = m.gets("op"); std::string &w = e.wire; size_t pos = w.empty() ? 0 : (size_t)(m.geti("pos") % (int64_t)w.size()); int n = (int)std::max<int64_t>(1,std::min<int64_t>(m.geti("n",1),64)); char byte = (char)m.geti("byte"); size_t len = (size_t)std::max<int64_t>(0,std::min<int64_t>(m.geti("len"),70000));
-		e.well_formed = false; e.mut = op; e.after = m.gets("after","halfclose"); if(e.after != "close" && e.after != "wait") e.after = "halfclose";
+		e.well_formed = false; e.mut = op; e.after = m.gets("after","halfclose"); if(e.after != "close" && e.after != "wait" && e.after != "reset") e.after = "halfclose";
 		size_t hdr_end = proto == 0 ? w.find("\r\n\r\n") : std::string::npos;
 		Req &q = e.req; bool http11 = e.http11;
 		if(op == "truncate"){ w.resize(pos);
@@ -425,6 +427,7 @@ struct E1 : Engine {
 		else if(op == "delete"){ w.erase(pos,std::min<size_t>(n,w.size()-pos)); }
 		else if(op == "garbage"){ w = gen_bytes((uint64_t)m.geti("pos"),len,0); }
 		else if(op == "dup_tail"){ w += w.substr(pos); }
+		else if(op == "complete_then_reset"){ e.after = "reset"; }   // the bytes stay as they are
 		else if(op == "fold_insert"){   // a line break followed by white space (what a folded header looks like) at an odd place: mostly 1..3 characters into some line of the request head
 			std::vector<size_t> ls(1,0); for(size_t p = w.find("\r\n");p != std::string::npos && ls.size() < 200;p = w.find("\r\n",p+2)) ls.push_back(p+2);
 			size_t at = ls[pos % ls.size()] + (n <= 5 ? (size_t)(n <= 3 ? 1 : n - 2) : (size_t)(len % 40)); if(at > w.size()) at = w.size(); w.insert(at,std::string("\r\n") + ((byte & 1) ? " " : "\t")); }
